@@ -309,6 +309,21 @@ func (a *analysed) content() []contentTok {
 	return out
 }
 
+var clauseKeywords = map[string]bool{"w:match": true, "w:optional": true, "w:with": true, "w:unwind": true, "w:return": true, "w:create": true,
+	"w:set": true, "w:delete": true, "w:detach": true, "w:remove": true, "w:merge": true, "w:where": true, "w:order": true, "w:skip": true,
+	"w:limit": true, "w:union": true, "w:distinct": true, "w:on": true}
+
+// clauseSkeleton is the subsequence of clause keywords of a token sequence.
+func clauseSkeleton(toks []contentTok) []string {
+	var out []string
+	for _, t := range toks {
+		if clauseKeywords[t.key] {
+			out = append(out, strings.TrimPrefix(t.key, "w:"))
+		}
+	}
+	return out
+}
+
 // ---- model comparison ----------------------------------------------------------------------------------------------------
 
 type modelDiff struct {
@@ -816,6 +831,13 @@ func check(a artefact) (r result) {
 		return
 	}
 	add("content tokens      : every input token is present in the emitted text")
+	// clause order: the clause keywords of the input must come in the same order in the emitted text (a clause that
+	// moved to another query part keeps every token and still round-trips, but means something else)
+	if ci, co := clauseSkeleton(in.content()), clauseSkeleton(out.content()); strings.Join(ci, " ") != strings.Join(co, " ") {
+		add("clause order        : input %v emitted %v", ci, co)
+		viol("clause-order-changed", "accepted and emitted as %q: the clauses come in the order %v, the input has %v", short(e1, 160), co, ci)
+		return
+	}
 	if len(in.ranges) > 0 || len(out.ranges) > 0 {
 		add("range literals      : input %v emitted %v", in.ranges, out.ranges)
 		if strings.Join(in.ranges, " ") != strings.Join(out.ranges, " ") {
